@@ -37,6 +37,8 @@ type world struct {
 	status  map[string]exported.Status
 	calls   []verifyCall
 	updates int
+	// a valid header makes a non-active client Active again (its newest state is then recent)
+	reviveOnUpdate bool
 	// LC oracle: answers of the light client, one nondeterministic boolean per call
 	auth      bool
 	authCalls int
@@ -49,6 +51,7 @@ type stubClient struct {
 	chain  string
 	typ    string // client type ("" = "stub")
 	latest clienttypes.Height
+	revived bool // state after a header update that brought the client back inside its trusting period
 }
 
 // stubCons is a consensus state of a given client type.
@@ -91,6 +94,9 @@ func (c *stubClient) Initialize(sdk.Context, codec.BinaryCodec, storetypes.KVSto
 	return nil
 }
 func (c *stubClient) Status(ctx sdk.Context, s storetypes.KVStore, cdc codec.BinaryCodec) exported.Status {
+	if c.revived {
+		return exported.Active
+	}
 	if st, ok := c.w.status[c.chain]; ok {
 		return st
 	}
@@ -100,6 +106,9 @@ func (c *stubClient) ExportMetadata(storetypes.KVStore) []exported.GenesisMetada
 func (c *stubClient) CheckHeaderAndUpdateState(ctx sdk.Context, cdc codec.BinaryCodec, s storetypes.KVStore, h exported.Header) (exported.ClientState, exported.ConsensusState, error) {
 	c.w.updates++
 	if vp.Bool("lc.headerValid") {
+		if c.w.reviveOnUpdate {
+			return &stubClient{w: c.w, chain: c.chain, typ: c.typ, latest: c.latest, revived: true}, &stubCons{typ: c.ClientType()}, nil
+		}
 		return c, &stubCons{typ: c.ClientType()}, nil
 	}
 	return nil, nil, packettypes.ErrInvalidPacket
